@@ -2,7 +2,7 @@ from .walk import WalkState
 from ...abbreviation import AbbreviationNode, AbbreviationAttribute
 from ...abbreviation.tokenizer.tokens import Field
 from ...config import Config
-from ...output_stream import OutputStream, is_inline
+from ...output_stream import OutputStream, is_inline, re_newline
 
 caret = [Field('', 0)]
 "Default caret token"
@@ -44,7 +44,7 @@ def split_by_lines(tokens: list):
 
     for t in tokens:
         if isinstance(t, str):
-            lines = t.splitlines()
+            lines = re_newline.split(t)
             line.append(lines.pop(0) if lines else '')
             while lines:
                 result.append(line)
